@@ -15,6 +15,7 @@
 #include <cstdlib>
 #include <limits>
 #include <ostream>
+#include <ratio>
 
 #include "opentelemetry/nostd/string_view.h"
 #include "opentelemetry/sdk/common/global_log_handler.h"
@@ -87,9 +88,32 @@ bool GetBoolEnvironmentVariable(const char *env_var_name, bool &value)
   return true;
 }
 
+using TimeoutDuration = std::chrono::system_clock::duration;
+using TimeoutRep      = TimeoutDuration::rep;
+
+/**
+  Convert @p count units of @p Period to a system clock duration.
+  @return false if the result can not be represented
+*/
+template <typename Period>
+static bool ConvertTimeout(TimeoutRep count, TimeoutDuration &value)
+{
+  // Number of system clock ticks per unit, as a reduced fraction.
+  using Ticks = std::ratio_divide<Period, TimeoutDuration::period>;
+
+  if (count > (std::numeric_limits<TimeoutRep>::max)() / Ticks::num)
+  {
+    return false;
+  }
+
+  value = std::chrono::duration_cast<TimeoutDuration>(
+      std::chrono::duration<TimeoutRep, Period>{count});
+  return true;
+}
+
 static bool GetTimeoutFromString(const char *input, std::chrono::system_clock::duration &value)
 {
-  std::chrono::system_clock::duration::rep result = 0;
+  TimeoutRep result = 0;
 
   // Skip spaces
   for (; *input && std::isspace(*input); ++input)
@@ -97,7 +121,15 @@ static bool GetTimeoutFromString(const char *input, std::chrono::system_clock::d
 
   for (; *input && std::isdigit(*input); ++input)
   {
-    result = result * 10 + (*input - '0');
+    const TimeoutRep digit = *input - '0';
+
+    if (result > ((std::numeric_limits<TimeoutRep>::max)() - digit) / 10)
+    {
+      // Rejecting a duration that can not be represented.
+      return false;
+    }
+
+    result = result * 10 + digit;
   }
 
   if (result == 0)
@@ -110,44 +142,32 @@ static bool GetTimeoutFromString(const char *input, std::chrono::system_clock::d
 
   if (unit == "ns")
   {
-    value = std::chrono::duration_cast<std::chrono::system_clock::duration>(
-        std::chrono::nanoseconds{result});
-    return true;
+    return ConvertTimeout<std::chrono::nanoseconds::period>(result, value);
   }
 
   if (unit == "us")
   {
-    value = std::chrono::duration_cast<std::chrono::system_clock::duration>(
-        std::chrono::microseconds{result});
-    return true;
+    return ConvertTimeout<std::chrono::microseconds::period>(result, value);
   }
 
   if (unit == "ms")
   {
-    value = std::chrono::duration_cast<std::chrono::system_clock::duration>(
-        std::chrono::milliseconds{result});
-    return true;
+    return ConvertTimeout<std::chrono::milliseconds::period>(result, value);
   }
 
   if (unit == "s")
   {
-    value = std::chrono::duration_cast<std::chrono::system_clock::duration>(
-        std::chrono::seconds{result});
-    return true;
+    return ConvertTimeout<std::chrono::seconds::period>(result, value);
   }
 
   if (unit == "m")
   {
-    value = std::chrono::duration_cast<std::chrono::system_clock::duration>(
-        std::chrono::minutes{result});
-    return true;
+    return ConvertTimeout<std::chrono::minutes::period>(result, value);
   }
 
   if (unit == "h")
   {
-    value =
-        std::chrono::duration_cast<std::chrono::system_clock::duration>(std::chrono::hours{result});
-    return true;
+    return ConvertTimeout<std::chrono::hours::period>(result, value);
   }
 
   if (unit == "")
@@ -155,9 +175,7 @@ static bool GetTimeoutFromString(const char *input, std::chrono::system_clock::d
     // TODO: The spec says milliseconds, but opentelemetry-cpp implemented
     // seconds by default. Fixing this is a breaking change.
 
-    value = std::chrono::duration_cast<std::chrono::system_clock::duration>(
-        std::chrono::seconds{result});
-    return true;
+    return ConvertTimeout<std::chrono::seconds::period>(result, value);
   }
 
   // Failed to parse the input string.
